@@ -651,8 +651,10 @@ func TestC13_EnumCustomConfig(t *testing.T) {
 	var cases []cfgCase
 	// the same lexeme material in every arrangement of up to three pieces, with and without blanks
 	pieces := map[string][][]lexeme{
-		"generic+ws":     {{{W, "你好"}}, {{S, "。"}}, {{W, "世界"}}, {{W, "x"}}, {{S, "\n"}}, {{B, " "}}, {{I, "12"}}, {{S, "　"}}, {{W, "é"}}},
-		"generic+sym":    {{{S, "..."}}, {{S, "."}, {S, "."}}, {{W, "a"}}, {{S, "=:~"}}, {{S, "="}, {S, ":"}}, {{S, "-->"}}, {{B, " "}}, {{S, "<=>"}}, {{S, "<="}}, {{S, "≠≠"}}, {{S, "≠"}}, {{I, "7"}}},
+		"generic+ws": {{{W, "你好"}}, {{S, "。"}}, {{W, "世界"}}, {{W, "x"}}, {{S, "\n"}}, {{B, " "}}, {{I, "12"}}, {{S, "　"}}, {{W, "é"}}},
+		"generic+sym": {{{S, "..."}}, {{S, "."}, {S, "."}}, {{W, "a"}}, {{S, "=:~"}}, {{S, "="}, {S, ":"}}, {{S, "-->"}}, {{B, " "}}, {{S, "<=>"}}, {{S, "<="}}, {{S, "≠≠"}}, {{S, "≠"}}, {{I, "7"}},
+			// a four- and a six-character symbol whose inner prefixes are not registered, whole and cut short
+			{{S, "<!--"}}, {{S, "<"}, {S, "!"}}, {{S, "<"}, {S, "!"}, {S, "-"}, {W, "b"}}, {{S, "=:~=:~"}}, {{S, "=:~"}, {S, "="}, {S, ":"}, {B, " "}}},
 		"expression+dis": {{{W, "x"}}, {{S, "。"}}, {{W, "y1"}}, {{S, "+"}}, {{I, "1"}}, {{B, " "}}, {{W, "é中"}}, {{S, "<="}}},
 	}
 	for cfg, ps := range pieces {
@@ -695,7 +697,7 @@ func TestC13_EnumCustomConfig(t *testing.T) {
 		registered := map[string]int{"<>": S, "<=": S, ">=": S}
 		switch cc.cfg {
 		case "generic+sym":
-			for _, s := range []string{"...", "=:~", "-->", "::=", "≠≠", "<=>"} {
+			for _, s := range []string{"...", "=:~", "-->", "::=", "≠≠", "<=>", "<!--", "=:~=:~"} {
 				registered[s] = S
 			}
 		case "expression+dis":
